@@ -129,6 +129,45 @@ def slot_writers(root):
     return sorted(writers)
 
 
+def slot_writes_only_fresh(root):
+    """every assignment to a URL slot outside __setstate__ targets a local name bound, in the same function,
+    to `object.__new__(URL)`; nothing deletes a slot; no setattr-style call"""
+    src = open(os.path.join(root, "yarl", "_url.py")).read()
+    tree = ast.parse(src)
+    ok = True
+    for fn in ast.walk(tree):
+        if not isinstance(fn, (ast.FunctionDef, ast.AsyncFunctionDef)):
+            continue
+        fresh = set()
+        for node in ast.walk(fn):
+            if isinstance(node, ast.Assign) and isinstance(node.value, ast.Call):
+                f = node.value.func
+                if isinstance(f, ast.Attribute) and f.attr == "__new__" and isinstance(f.value, ast.Name) and f.value.id == "object":
+                    for t in node.targets:
+                        if isinstance(t, ast.Name):
+                            fresh.add(t.id)
+        for node in ast.walk(fn):
+            targets = []
+            if isinstance(node, ast.Assign):
+                targets = node.targets
+            elif isinstance(node, (ast.AugAssign, ast.AnnAssign)):
+                targets = [node.target]
+            elif isinstance(node, ast.Delete):
+                targets = node.targets
+            flat = []
+            for t in targets:
+                flat.extend(t.elts if isinstance(t, (ast.Tuple, ast.List)) else [t])
+            for t in flat:
+                if isinstance(t, ast.Attribute) and t.attr in SLOTS:
+                    if isinstance(node, ast.Delete):
+                        ok = False
+                    elif fn.name == "__setstate__":
+                        continue
+                    elif not (isinstance(t.value, ast.Name) and t.value.id in fresh):
+                        ok = False
+    return ok
+
+
 def gil_facts(root):
     pyx = open(os.path.join(root, "yarl", "_quoting_c.pyx")).read()
     code = "\n".join(l.split("#")[0] for l in pyx.splitlines())
@@ -200,6 +239,7 @@ def main():
     w("")
     sw = slot_writers(root)
     w("def slotWriters : List String := [" + ", ".join(f"\"{x}\"" for x in sw) + "]")
+    w(f"def slotWritesOnlyFresh : Bool := {lean_bool(slot_writes_only_fresh(root))}")
     g = gil_facts(root)
     for k, v in g.items():
         w(f"def {k} : Bool := {lean_bool(v)}")
